@@ -64,6 +64,10 @@ pub enum Case {
         scale_exp: f64,
         #[serde(default)]
         cap: u8,
+        /// the polynomial is multiplied by (1 - x/R), R = +-10^far: one more, very distant real root and a leading
+        /// coefficient (curvature) many orders below the others
+        #[serde(default)]
+        far: Option<(f64, bool)>,
     },
     /// g(x) = relax * x + (1 - relax) * r(x): same fixed point as the catalogue map r, slope relax + (1-relax) r'
     Steff {
@@ -515,7 +519,7 @@ fn run_newton_poly(case: &Case, mut o: Obs) -> Outcome {
 }
 
 fn run_muller(case: &Case, mut o: Obs) -> Outcome {
-    let Case::Muller { complex_field, rs, target, offs, vertical, near, tol, scale_exp, cap } = case else { unreachable!() };
+    let Case::Muller { complex_field, rs, target, offs, vertical, near, tol, scale_exp, cap, far } = case else { unreachable!() };
     let n_max = if *cap == 0 { 100 } else { *cap as usize - 1 };
     if *cap != 0 {
         o.label("poly-exhaustion");
@@ -525,7 +529,20 @@ fn run_muller(case: &Case, mut o: Obs) -> Outcome {
     let n = roots.len();
     let idx = target % n;
     let z = roots[idx];
-    let cf = rs.coeffs();
+    let cf0 = rs.coeffs();
+    let mut cf = cf0.clone();
+    let mut roots = roots;
+    if let Some((e, neg)) = far {
+        let r = if *neg { -(10f64.powf(*e)) } else { 10f64.powf(*e) };
+        let mut ext = cf.clone();
+        ext.push(c(0.0, 0.0));
+        for k in 1..ext.len() {
+            ext[k] -= cf[k - 1] / r;
+        }
+        cf = ext;
+        roots.push(c(r, 0.0));
+        o.label("muller-distant-extra-root");
+    }
     let use_real = !*complex_field && rs.real_coeffs;
     o.label(if use_real { "muller-real-field" } else { "muller-complex-field" });
     let d = roots.iter().enumerate().filter(|(j, _)| *j != idx).map(|(_, w)| (w - z).norm()).fold(3.0, f64::min);
@@ -597,7 +614,7 @@ fn run_muller(case: &Case, mut o: Obs) -> Outcome {
                     bi = j;
                 }
             }
-            let bound = 2.0 * tol + root_floor(&cf, rs, bi);
+            let bound = 2.0 * tol + if bi < n { root_floor(&cf0, rs, bi) } else { 64.0 * EPS * roots[bi].norm() };
             if best <= bound {
                 // only the judged (near) class contributes to the margin statistics
                 o.set(if judged { "ratio_err" } else { "wide_err_over_bound" }, best / bound);
@@ -842,8 +859,10 @@ fn strategy(_t: Tier) -> BoxedStrategy<Case> {
     let npoly = (any::<bool>(), prop_oneof![real_roots_only(1, 8), real_rootset(1, 8), complex_rootset(1, 8)], 0usize..8, prop_oneof![1 => Just(0.0), 6 => gen::fl(0.0, 1.0)], gen::fl(0.0, 6.2831), gen::logu(-10.0, -3.0), (scale_exp(), pcap()))
         .prop_map(|(complex_field, rs, target, rho, angle, tol, (scale_exp, cap))| Case::NewtonPoly { complex_field, rs, target, rho, angle, tol, scale_exp, cap });
     let off = || (gen::fl(-1.0, 1.0), gen::fl(-1.0, 1.0));
-    let muller = (any::<bool>(), prop_oneof![real_roots_only(2, 8), real_rootset(2, 8), complex_rootset(2, 8)], 0usize..8, [off(), off(), off()], prop_oneof![3 => Just(false), 1 => Just(true)], prop_oneof![3 => Just(true), 1 => Just(false)], gen::logu(-10.0, -3.0), (scale_exp(), pcap()))
-        .prop_map(|(complex_field, rs, target, offs, vertical, near, tol, (scale_exp, cap))| Case::Muller { complex_field, rs, target, offs, vertical, near, tol, scale_exp, cap });
+    // degree 1 (a parabola through three points of a line has no curvature) to 8; one case in six multiplied by
+    // (1 - x/R), |R| = 10^[5,14]: a distant extra root, i.e. a tiny leading coefficient
+    let muller = (any::<bool>(), prop_oneof![1 => real_roots_only(1, 1), 3 => real_roots_only(2, 8), 3 => real_rootset(2, 8), 3 => complex_rootset(2, 8)], 0usize..8, [off(), off(), off()], prop_oneof![3 => Just(false), 1 => Just(true)], prop_oneof![3 => Just(true), 1 => Just(false)], gen::logu(-10.0, -3.0), (scale_exp(), pcap(), prop_oneof![5 => Just(None), 1 => (gen::fl(5.0, 14.0), any::<bool>()).prop_map(Some)]))
+        .prop_map(|(complex_field, rs, target, offs, vertical, near, tol, (scale_exp, cap, far))| Case::Muller { complex_field, rs, target, offs, vertical, near, tol, scale_exp, cap, far });
     let relax = prop_oneof![2 => Just(0.0), 1 => gen::fl(0.0, 0.9), 2 => gen::fl(0.7, 0.97)];
     let steff = (0u8..7, gen::fl(-1.0, 1.0), gen::logu(-14.0, -3.0), prop_oneof![8 => Just(100usize), 1 => 0usize..3], relax).prop_map(|(func, off, tol, cap, relax)| Case::Steff { func, off, tol, cap, relax });
     prop_oneof![8 => sys, 4 => npoly, 4 => muller, 3 => steff].boxed()
@@ -891,7 +910,7 @@ pub fn run(opts: &Opts) -> i32 {
         ("rotation-shaped-jacobian", 0.05),
         ("complex-system", 0.03),
     ];
-    spec.rule = "generated: (a) systems F(x)=A(x-r)+eta*N(x-r) of dimension 1-4, A strictly diagonally dominant (|diag| in [1,3], |offdiag| <= 0.25) or diag(|a_kk|) times a product of plane rotations by arbitrary angles (well conditioned, far from symmetric), times 10^[-1,1]; one case in seven a complex-valued system of dimension 1-2 (complex entries, roots and starts, same holomorphic non-linearity); N_i(d)=sin(d_{i+1})d_i+d_{i+2}^2, eta capped so that beta*gamma*|delta|<=0.1, roots in [-3,3]^S, at the origin, or far (|r_i|<=100), starts r+delta (|delta_i|<=0.3), exactly r, or the origin (affine), tol 10^[-10,-3], FD width 10^[-4,-1], n_max=100 or exhaustion caps 0..2, singular class with duplicate integer rows; Newton and secant. (b) polynomials of degree 1-8 expanded from separated roots (grid construction, separation >= 0.3, |z|<=3), Newton starts within 0.8 d/(2n-1) of a chosen root in real and complex arithmetic, Muller triples within 0.1 d (must converge) or 1.5 (may fail), incl. vertical triples; one case in six with an iteration cap of 0-6 (Err, or an Ok that meets the accuracy bound). all coefficients optionally multiplied by 10^[-13,4] (roots unchanged; scaled-down polynomials keep the default zero tolerance 1e-10, which may exceed their leading coefficient and must not matter). (c) Steffensen on six contractions r (and a seventh defined on x >= 0.9 only, where an iterate leaving the domain must end in Err, never Ok(NaN)) and their under-relaxations k x+(1-k) r(x), k in [0,0.97] (same fixed point, slope up to ~0.98), with tolerances 10^[-14,-3]. Oracle: Ok within 2 tol + rounding floor of the root (nearest root for Muller; |g(x)-x| <= 10 tol and distance to the fixed point <= 3 tol + 64 eps|x|/(1-slope)^2 for Steffensen; relaxed maps get tol >= 1e3 eps|x|/(1-slope)^2), Err on singular/exhausted input (or an Ok that meets the accuracy bound), never a panic/NaN, call counts bounded exactly by the iteration cap (Newton: at most n_max evaluations each of F and J; secant: 1 + 2S + max(0, n_max-2) of F). Non-trivial = non-affine system of dimension >= 2, special start, far root, tol <= 1e-8, polynomial degree >= 2, every Steffensen case. Distinct = distinct case JSON.".into();
+    spec.rule = "generated: (a) systems F(x)=A(x-r)+eta*N(x-r) of dimension 1-4, A strictly diagonally dominant (|diag| in [1,3], |offdiag| <= 0.25) or diag(|a_kk|) times a product of plane rotations by arbitrary angles (well conditioned, far from symmetric), times 10^[-1,1]; one case in seven a complex-valued system of dimension 1-2 (complex entries, roots and starts, same holomorphic non-linearity); N_i(d)=sin(d_{i+1})d_i+d_{i+2}^2, eta capped so that beta*gamma*|delta|<=0.1, roots in [-3,3]^S, at the origin, or far (|r_i|<=100), starts r+delta (|delta_i|<=0.3), exactly r, or the origin (affine), tol 10^[-10,-3], FD width 10^[-4,-1], n_max=100 or exhaustion caps 0..2, singular class with duplicate integer rows; Newton and secant. (b) polynomials of degree 1-8 expanded from separated roots (grid construction, separation >= 0.3, |z|<=3), Newton starts within 0.8 d/(2n-1) of a chosen root in real and complex arithmetic, Muller triples within 0.1 d (must converge) or 1.5 (may fail), incl. vertical triples, degree-1 polynomials, and one Muller case in six multiplied by (1 - x/R), |R| = 10^[5,14] (a distant extra root: leading coefficient many orders below the others); one case in six with an iteration cap of 0-6 (Err, or an Ok that meets the accuracy bound). all coefficients optionally multiplied by 10^[-13,4] (roots unchanged; scaled-down polynomials keep the default zero tolerance 1e-10, which may exceed their leading coefficient and must not matter). (c) Steffensen on six contractions r (and a seventh defined on x >= 0.9 only, where an iterate leaving the domain must end in Err, never Ok(NaN)) and their under-relaxations k x+(1-k) r(x), k in [0,0.97] (same fixed point, slope up to ~0.98), with tolerances 10^[-14,-3]. Oracle: Ok within 2 tol + rounding floor of the root (nearest root for Muller; |g(x)-x| <= 10 tol and distance to the fixed point <= 3 tol + 64 eps|x|/(1-slope)^2 for Steffensen; relaxed maps get tol >= 1e3 eps|x|/(1-slope)^2), Err on singular/exhausted input (or an Ok that meets the accuracy bound), never a panic/NaN, call counts bounded exactly by the iteration cap (Newton: at most n_max evaluations each of F and J; secant: 1 + 2S + max(0, n_max-2) of F). Non-trivial = non-affine system of dimension >= 2, special start, far root, tol <= 1e-8, polynomial degree >= 2, every Steffensen case. Distinct = distinct case JSON.".into();
     spec.max_shrink_iters = 3000;
     run_spec(spec, opts)
 }
